@@ -202,7 +202,7 @@ def roundUpGo (r start : Nat) (buf : List Nat) : Nat → List Nat × Nat × Bool
 
 /-- `true` once fixes/C14-generic-radix-tie-parity.diff is committed in /repo: the exact-tie test of an even radix looks
 at the parity of the last kept DIGIT instead of its ASCII character -/
-def repoHasTieParityFix : Bool := false
+def repoHasTieParityFix : Bool := true
 
 /-- `last & 1 == 0` of `truncate_and_round`: on the character (snapshot) or on the digit value (repaired) -/
 def lastEven (parityFix : Bool) (last r : Nat) : Prop :=
@@ -399,8 +399,8 @@ def writeFloat (cf : Bool) (feats : Features) (f : Fmt) (fmt : Format) (o : WOpt
 `false` = the original snapshot.  The driver runs the model with this value. -/
 def repoHasCarryFix : Bool := true
 /-- `true` once fixes/C07-generic-radix-positional-truncation.diff is committed in /repo -/
-def repoHasWindowFix : Bool := false
+def repoHasWindowFix : Bool := true
 /-- `true` once fixes/C14-generic-digit-options-min-and-literal.diff (applies after the window fix) is committed -/
-def repoHasMinPadFix : Bool := false
+def repoHasMinPadFix : Bool := true
 
 end LexVerif.Model.WriteRadix
